@@ -12,6 +12,9 @@ requests
   {"op":"run","impl":null|[b,b,b,n],"w":writer,"fs":[[name,[byte…]]…],"full":bool,
    "queries":[{"plan":[fault…],"k":null|steps}…]}
       → {"r":[{"trace":[[op,n,arg,res]…],"out":null|0|1|2,"pc":str,"dir":[[name,len,hash,null|[byte…]]…]}…]}
+  {"op":"hist","impl":…,"o1":{"dest":name,"uses":[{"script":…,"exc":null|k}…]},"o2":…,"fs":…,"full":bool,
+   "queries":[{"sched":[[who,fault]…]}…]}   (writer OBJECTS used several times)
+      → {"r":[{"trace":[[who,op,n,arg,res]…],"outs1":[outcome per finished use…],"outs2":…,"dir":…}…]}
   {"op":"run2","impl":…,"w1":writer,"w2":writer,"fs":…,"full":bool,"queries":[{"sched":[[who,fault]…]}…]}
       → {"r":[{"trace":[[who,op,n,arg,res]…],"out1":…,"out2":…,"dir":…}…]}
 event op codes: 0 mkdir 1 create 2 write 3 seek 4 close 5 replace 6 unlink; res: 0 ok 1 eexist 2 enoent 3 err;
@@ -45,9 +48,10 @@ def bopOf (j : Json) : Except String BOp := do
 def implOf (j : Json) : Except String Impl := do
   if j.isNull then pure Gen.Save.impl else
   let a ← j.getArr?
-  if a.size != 4 then throw "impl: need [exclusive, closeGuard, replaceGuard, start]"
+  if a.size != 6 then throw "impl: need [exclusive, closeGuard, replaceGuard, start, resetTemp, staleMissingOk]"
   pure { exclusive := ← (a[0]!).getBool?, closeGuard := ← (a[1]!).getBool?,
-         replaceGuard := ← (a[2]!).getBool?, start := ← (a[3]!).getNat? }
+         replaceGuard := ← (a[2]!).getBool?, start := ← (a[3]!).getNat?,
+         resetTemp := ← (a[4]!).getBool?, staleMissingOk := ← (a[5]!).getBool? }
 
 def cfgOf (impl : Impl) (j : Json) : Except String Cfg := do
   let dest ← nameOf (← j.getObjVal? "dest")
@@ -56,6 +60,17 @@ def cfgOf (impl : Impl) (j : Json) : Except String Cfg := do
   let e ← j.getObjVal? "exc"
   let exc ← if e.isNull then pure none else do pure (some (← e.getNat?))
   pure { impl, dest, script, bodyExc := exc }
+
+def ocfgOf (impl : Impl) (j : Json) : Except String OCfg := do
+  let dest ← nameOf (← j.getObjVal? "dest")
+  let us ← (← j.getObjVal? "uses").getArr?
+  let uses ← us.toList.mapM fun u => do
+    let sc ← (← u.getObjVal? "script").getArr?
+    let script ← sc.toList.mapM bopOf
+    let e ← u.getObjVal? "exc"
+    let exc ← if e.isNull then pure none else do pure (some (← e.getNat?))
+    pure ({ script, bodyExc := exc } : Use)
+  pure { impl, dest, uses }
 
 def fsOf (j : Json) : Except String FS := do
   let a ← j.getArr?
@@ -100,7 +115,8 @@ def handle (j : Json) : Except String Json := do
   | "impl" =>
     let i := Gen.Save.impl
     pure (Json.mkObj [("impl", Json.arr #[Json.bool i.exclusive, Json.bool i.closeGuard, Json.bool i.replaceGuard,
-                                          Json.num (JsonNumber.fromNat i.start)])])
+                                          Json.num (JsonNumber.fromNat i.start), Json.bool i.resetTemp,
+                                          Json.bool i.staleMissingOk])])
   | "run" =>
     let impl ← implOf (← j.getObjVal? "impl")
     let cfg ← cfgOf impl (← j.getObjVal? "w")
@@ -133,6 +149,27 @@ def handle (j : Json) : Except String Json := do
       pure (Json.mkObj [("trace", Json.arr (s.trace.reverse.map fun e =>
                           Wire.ofNatList ((if e.1 then 1 else 0) :: opCode e.2.op ++ [resCode e.2.res])).toArray),
                         ("out1", outJson s.pc1), ("out2", outJson s.pc2), ("dir", dirJson full s.fs)])
+    pure (Json.mkObj [("r", Json.arr rs.toArray)])
+  | "hist" =>
+    let impl ← implOf (← j.getObjVal? "impl")
+    let c1 ← ocfgOf impl (← j.getObjVal? "o1")
+    let c2 ← ocfgOf impl (← j.getObjVal? "o2")
+    let fs ← fsOf (← j.getObjVal? "fs")
+    let full ← j.getObjValAs? Bool "full"
+    let qs ← (← j.getObjVal? "queries").getArr?
+    let rs ← qs.toList.mapM fun q => do
+      let sj ← (← q.getObjVal? "sched").getArr?
+      let sched ← sj.toList.mapM fun e => do
+        let p ← Wire.natList e
+        match p with
+        | [w, f] => pure (w != 0, faultOf f)
+        | _ => throw "sched: need [who, fault]"
+      let s := runO2 c1 c2 sched (SysO.init fs)
+      pure (Json.mkObj [("trace", Json.arr (s.trace.reverse.map fun e =>
+                          Wire.ofNatList ((if e.1 then 1 else 0) :: opCode e.2.op ++ [resCode e.2.res])).toArray),
+                        ("outs1", Wire.ofNatList (s.o1.outs.reverse.map outCode)),
+                        ("outs2", Wire.ofNatList (s.o2.outs.reverse.map outCode)),
+                        ("dir", dirJson full s.fs)])
     pure (Json.mkObj [("r", Json.arr rs.toArray)])
   | _ => throw s!"unknown op {op}"
 
